@@ -70,6 +70,12 @@ MODULES = [
             {"file": SHARED, "py": "adjust_blocksize", "g": "g_adjust_blocksize", "params": [("block", "Z"), ("dim", "Z")], "ret": "Z"},
             {"file": SHARED, "py": "num_overviews", "g": "g_num_overviews", "params": [("block", "Z"), ("dim", "Z")], "ret": "Z",
              "raises": True, "fuel": "S (S (Z.to_nat (Z.log2 (Z.abs dim))))"},
+            # CogMeta.chunked: tiles per axis;  CogMeta.flat_tile_idx: (plane, y, x) -> position in the IFD's tile arrays
+            {"file": SHARED, "py": "CogMeta.chunked", "g": "g_cog_nblocks", "params": [("N", "Z"), ("n", "Z")], "ret": "Z",
+             "genexp": {"index": 0, "count": 1, "vars": [("N", "Z"), ("n", "Z")]}},
+            {"file": SHARED, "py": "CogMeta.flat_tile_idx", "g": "g_cog_flat_tile_idx",
+             "self": [("num_planes", "Z"), ("chunked.yx", ("T", "Z", "Z"))], "params": [("idx", ("T", "Z", "Z", "Z"))],
+             "ret": "Z", "raises": True},
         ],
     },
     {
